@@ -91,6 +91,11 @@ def build(tier, repo):
     for k, v in st.items():
         chk.note_analysed("base.c:%s" % k, v)
     chk.note_analysed("base.c:wrappers", len(wr))
+    nl = 0
+    for fname, tab in (("blas.c", "blas_functions"), ("lapack.c", "lapack_functions")):
+        cc = cs[fname]
+        nl += cw.local_array_loop_rule(r1, cc, [fn for _, fn in cf.method_table(cc)[tab] if fn in cc.funcs])
+    chk.note_analysed("loops_over_local_arrays", nl)
     r1.require(1800)
     r2.require(1800)
 
